@@ -43,7 +43,7 @@ struct ChildProc {
 impl ChildProc {
     fn spawn(dir: &Path) -> std::io::Result<(ChildProc, String)> {
         let exe = std::env::current_exe()?.parent().unwrap().join("opener");
-        let mut child = Command::new(exe).arg(dir).stdin(Stdio::piped()).stdout(Stdio::piped()).stderr(Stdio::null()).spawn()?;
+        let mut child = crate::util::spawn_child(Command::new(exe).arg(dir).stdin(Stdio::piped()).stdout(Stdio::piped()).stderr(Stdio::null()))?;
         let stdin = child.stdin.take().unwrap();
         let mut stdout = BufReader::new(child.stdout.take().unwrap());
         let mut line = String::new();
@@ -121,7 +121,7 @@ impl St {
             return Ok(());
         }
         let before = tree_digest(&self.dir, &["LOCK"]);
-        let r = surrealkv::TreeBuilder::with_options(opts(&self.dir)).build();
+        let r = crate::util::build_tree(opts(&self.dir));
         match (r, self.owner) {
             (Ok(t), None) => {
                 match Self::scan(&t) {
@@ -203,7 +203,7 @@ async fn run_inner(case: &LockCase, dir: &Path, st: &mut St) -> R<()> {
     surrealkv::verif::set_manual_background(true);
     // prelude: a first owner writes some data and goes away without flushing (WAL replay on every later open)
     if case.prelude > 0 {
-        let t = surrealkv::TreeBuilder::with_options(opts(dir)).build().map_err(|e| Failure { class: "open-failed".into(), step: 0, msg: format!("{e:?}"), aux: json!({}) })?;
+        let t = crate::util::build_tree(opts(dir)).map_err(|e| Failure { class: "open-failed".into(), step: 0, msg: format!("{e:?}"), aux: json!({}) })?;
         for p in 0..case.prelude {
             let mut txn = t.begin().map_err(|e| Failure { class: "begin-error".into(), step: 0, msg: format!("{e:?}"), aux: json!({}) })?;
             let (k, v) = (format!("pre{p}"), format!("v{p}"));
@@ -336,7 +336,7 @@ async fn run_inner(case: &LockCase, dir: &Path, st: &mut St) -> R<()> {
                             std::thread::spawn(move || {
                                 let _g = h.enter();
                                 b.wait();
-                                surrealkv::TreeBuilder::with_options(opts(&d)).build().ok()
+                                crate::util::build_tree(opts(&d)).ok()
                             })
                         })
                         .collect();
